@@ -2,6 +2,7 @@ package main
 
 import (
 	"fmt"
+	"go/token"
 	"go/types"
 	"sort"
 	"strconv"
@@ -79,6 +80,15 @@ func (fr *frame) loopTouched(li *loopInfo) (names map[string]bool, all bool) {
 				visitFn(cl.Fn, bl, depth+1)
 				return
 			}
+			// a closure kept in a local variable that is written once
+			if f := staticClosureOf(c.Value); f != nil && depth < 3 {
+				bl := map[*ssa.BasicBlock]bool{}
+				for _, b := range f.Blocks {
+					bl[b] = true
+				}
+				visitFn(f, bl, depth+1)
+				return
+			}
 			// dynamic call: union over candidates
 			cands := fc.e.dynCandidates(c.Value.Type())
 			if len(cands) == 0 {
@@ -135,6 +145,10 @@ func (fr *frame) loopTouched(li *loopInfo) (names map[string]bool, all bool) {
 					mt := i.Map.Type().Underlying().(*types.Map)
 					dn, vn, _, _ := fc.mapArrs(mt, fc.e.regionOf(i.Map))
 					names[dn], names[vn] = true, true
+				case *ssa.UnOp:
+					if i.Op == token.ARROW {
+						names["CR"] = true
+					}
 				case *ssa.Send:
 					names["CL"] = true
 					names["CO$"+sanitize(fc.e.sortOf(i.X.Type()))] = true
@@ -157,7 +171,7 @@ func (fr *frame) loopTouched(li *loopInfo) (names map[string]bool, all bool) {
 						}
 					}
 					if _, ok := in.(*ssa.MakeChan); ok {
-						names["CL"], names["CC"] = true, true
+						names["CL"], names["CC"], names["CR"] = true, true, true
 					}
 				case *ssa.Next:
 					if r, ok := i.Iter.(*ssa.Range); ok {
@@ -172,7 +186,11 @@ func (fr *frame) loopTouched(li *loopInfo) (names map[string]bool, all bool) {
 				case *ssa.Defer:
 					visitCall(&i.Call, depth)
 				case *ssa.Go:
-					all = true
+					if fc.c != nil && fc.c.Opts["go-sequential"] != "" {
+						visitCall(&i.Call, depth)
+					} else {
+						all = true
+					}
 				}
 			}
 		}
@@ -332,6 +350,21 @@ func (fr *frame) loopHeader(li *loopInfo, b *ssa.BasicBlock, st *State) *State {
 			al := fc.heapGet(fr.old, "Alloc", arr(SInt, SBool))
 			_ = al
 			fc.fact(fmt.Sprintf("(forall ((r Int)) (! (=> (not %s) (= (select %s r) (select %s r))) :pattern ((select %s r))))", fc.allowed(fr.old, k, "r"), nw.S, old.S, nw.S))
+		}
+	}
+	// the cells of local variables that only this function writes, and not inside this loop, keep
+	// their values (whatever the calls in the loop may modify)
+	for f := fr; f != nil; f = f.parent {
+		for _, pc := range f.priv {
+			if f == fr && pc.alloc != nil && storedIn(pc.alloc, li.blocks) {
+				continue
+			}
+			n := derefArrName(pc.elemT)
+			o, ok1 := pre.heap[n]
+			nw, ok2 := st.heap[n]
+			if ok1 && ok2 && o.S != nw.S {
+				fc.fact(eq(sel(nw.S, pc.ref.S), sel(o.S, pc.ref.S)))
+			}
 		}
 	}
 	for _, k := range keys {
@@ -655,4 +688,72 @@ func (fr *frame) lookupAddr(name string) (CVal, bool) {
 		}
 	}
 	return CVal{}, false
+}
+
+
+// storedIn: some store to the cell lies in one of the blocks.
+func storedIn(a *ssa.Alloc, blocks map[*ssa.BasicBlock]bool) bool {
+	if a.Referrers() == nil {
+		return true
+	}
+	for _, r := range *a.Referrers() {
+		if st, ok := r.(*ssa.Store); ok && st.Addr == a && blocks[st.Block()] {
+			return true
+		}
+	}
+	return false
+}
+
+// staticClosureOf: v loads a local variable (or a variable captured from the enclosing function)
+// that is assigned exactly once, a function literal: that function.
+func staticClosureOf(v ssa.Value) *ssa.Function {
+	u, ok := v.(*ssa.UnOp)
+	if !ok {
+		return nil
+	}
+	var cell ssa.Value = u.X
+	for depth := 0; depth < 4; depth++ {
+		switch x := cell.(type) {
+		case *ssa.Alloc:
+			if !singleStore(x) || !privateCell(x) {
+				return nil
+			}
+			for _, r := range *x.Referrers() {
+				if st, ok := r.(*ssa.Store); ok && st.Addr == x {
+					if mc, ok := st.Val.(*ssa.MakeClosure); ok {
+						if f, ok := mc.Fn.(*ssa.Function); ok {
+							return f
+						}
+					}
+				}
+			}
+			return nil
+		case *ssa.FreeVar:
+			fn := x.Parent()
+			parent := fn.Parent()
+			if parent == nil {
+				return nil
+			}
+			idx := -1
+			for k, fv := range fn.FreeVars {
+				if fv == x {
+					idx = k
+				}
+			}
+			cell = nil
+			for _, b := range parent.Blocks {
+				for _, in := range b.Instrs {
+					if mc, ok := in.(*ssa.MakeClosure); ok && mc.Fn == fn && idx >= 0 && idx < len(mc.Bindings) {
+						cell = mc.Bindings[idx]
+					}
+				}
+			}
+			if cell == nil {
+				return nil
+			}
+		default:
+			return nil
+		}
+	}
+	return nil
 }
